@@ -50,6 +50,7 @@ def generate(ctx):
             if rng.random() < 0.4 and len(g["terms"]) > 1:
                 c["g3"] = cfglib.rand_cfg(rng, names=names, max_vars=2, max_prods=3, max_body=2)
                 c["ter3"] = [t for t in g["terms"] if t != c["ter"]][0]
+                c["chained"] = rng.random() < 0.5       # two successive substitute calls (the second one on a grammar that already has #SUBS# names)
         cases.append(c)
     return cases
 
@@ -77,9 +78,12 @@ def impl(case):
         res = (~g) if case.get("operator") else g.reverse()
     elif op == "substitute":
         sub = {Terminal(case["ter"]): g2}
-        if "g3" in case:
-            sub[Terminal(case["ter3"])] = cfglib.build_cfg(case["g3"])
-        res = g.substitute(sub)
+        if "g3" in case and case.get("chained"):
+            res = g.substitute(sub).substitute({Terminal(case["ter3"]): cfglib.build_cfg(case["g3"])})
+        else:
+            if "g3" in case:
+                sub[Terminal(case["ter3"])] = cfglib.build_cfg(case["g3"])
+            res = g.substitute(sub)
     else:
         raise ValueError(op)
     bits = [bool(res.contains([Terminal(a) for a in w])) for w in _small_words(case)]
@@ -131,8 +135,11 @@ class _Ext:
             ref = "(fun w => %s (rev w))" % m1
             model = "(reverse_cfg %s)" % G
         else:
-            sigma = "[(%d, %s)" % (ci.ter(case["ter"]), G2) + ("; (%d, %s)" % (ci.ter(case["ter3"]), G3) if G3 else "") + "]"
-            model = "(substitute %s %s)" % (G, sigma)
+            if G3 and case.get("chained"):
+                model = "(substitute (substitute %s [(%d, %s)]) [(%d, %s)])" % (G, ci.ter(case["ter"]), G2, ci.ter(case["ter3"]), G3)
+            else:
+                sigma = "[(%d, %s)" % (ci.ter(case["ter"]), G2) + ("; (%d, %s)" % (ci.ter(case["ter3"]), G3) if G3 else "") + "]"
+                model = "(substitute %s %s)" % (G, sigma)
             return "(lang_diff %s %s %s false, @None (list N), map (cfg_member %s) %s)" % (model, H, ws, model, small)
         return "(pred_diff %s %s %s, pred_diff %s %s %s, map %s %s)" % (H, ref, ws, model, ref, ws, ref, small)
 
